@@ -551,4 +551,37 @@ theorem receiver_alone (os : List Opts) (i : Nat) (o : Opts) (ho : os[i]? = some
   simp only [Multi.stepAt, ho, h2, hst]
   exact ⟨rfl, by simp only [List.getElem?_set, hi, if_true]; rfl⟩
 
+/-- `receivers_independent` holds as stated above for the schedules in which no two `_error()` calls
+overlap (events are atomic).  With the REPAIRED `_error()` (reply stream in an automatic variable) it also
+holds when a receiver is overtaken inside `_error()`: the overlapped step of `a` together with the events
+of the receivers overtaking it leaves every other connection untouched. -/
+theorem receivers_independent_repaired (os : List Opts) (m : Multi) (ea : Event) (inner : List Event) (j : Nat)
+    (ha : j ≠ ea.1) (hin : ∀ e ∈ inner, e.1 ≠ j) :
+    (m.overlapAt false os ea inner).conns[j]? = m.conns[j]? :=
+  overlapAt_other os m ea inner j ha hin
+
+/-- `/w/d` holds the directories `f` and `g`: a regular file of either name cannot be written -/
+def rfs : FS := fun p =>
+  if p = [] then some (.dir 0o755 none)
+  else if p = [[119]] then some (.dir 0o755 none)
+  else if p = [[119], [100]] then some (.dir 0o755 none)
+  else if p = [[119], [100], [102]] then some (.dir 0o755 none)
+  else if p = [[119], [100], [103]] then some (.dir 0o755 none)
+  else none
+
+/-- `C0644 1 f\n` without its newline, and `C0644 1 g\n` -/
+def recF : Str := [67, 48, 54, 52, 52, 32, 49, 32, 102]
+def recG : Str := [67, 48, 54, 52, 52, 32, 49, 32, 103, 10]
+
+/-- Finding F11-ERRFP-RACE mirrored: with the shared `static FILE *fp` of the unchanged `_error()`, when
+receiver 0 is overtaken inside `_error()` by receiver 1 reporting an error of its own, BOTH records end up
+on connection 1 and connection 0 gets nothing beyond the greeting; with the repaired `_error()` each
+connection gets its own record. -/
+theorem errfp_race_witness :
+    ((((Multi.init [ro, ro] rfs).run [ro, ro] (recF.map fun b => (0, some b))).overlapAt true [ro, ro] (0, some 10)
+        (recG.map fun b => (1, some b))).conns.map (·.out) = [[.ack], [.err .path, .err .path, .ack]]) ∧
+    ((((Multi.init [ro, ro] rfs).run [ro, ro] (recF.map fun b => (0, some b))).overlapAt false [ro, ro] (0, some 10)
+        (recG.map fun b => (1, some b))).conns.map (·.out) = [[.err .path, .ack], [.err .path, .ack]]) := by
+  decide +kernel
+
 end PdshVerif.Props.C11
